@@ -25,8 +25,8 @@ SHAPES = [(0,), (3,), (2, 3), (1, 1, 4), ()]
 
 
 def shards(tier, seed):
-    out = [{'name': 'list', 'np': False, 'extra': 200 if tier == 'quick' else 5000},
-           {'name': 'np', 'np': True, 'extra': 100 if tier == 'quick' else 2000}]
+    out = [{'name': 'list', 'np': False, 'extra': 200 if tier == 'quick' else 100000},
+           {'name': 'np', 'np': True, 'extra': 100 if tier == 'quick' else 30000}]
     return out
 
 
